@@ -117,3 +117,60 @@ def sig_graph(e):
     if any(x[0] == x[1] for x in g):
         feats.append("self-loop")
     return ",".join(feats) or "plain"
+
+
+def subnet_events(n, g, id0, rnd):
+    """Network.sub_network(source, cut, 'TOPOLOGIC'): ids (1-based positions in g) of the edges kept"""
+    ev = []
+    for _ in range(2):
+        s = rnd.randrange(n)
+        cut = rnd.choice([0, 1, 2, 3, 5, 8, 999999])
+        e = {"id": id0 + len(ev), "ev": "subnet", "n": n, "g": g, "s": s, "cut": cut, "ids": []}
+        try:
+            with core.quiet():
+                net = build_network(n, g)
+                sub = net.sub_network(s, (1e300 if cut >= 999999 else cut), "TOPOLOGIC", verbose=False)
+            e["ids"] = [int(x) for x in sub.getEdgesId()]
+        except (Exception, SystemExit) as ex:
+            e["exc"] = repr(ex)[:200]
+        ev.append(e)
+    return ev
+
+
+def btw_events(rnd, id0):
+    """Network.distanceBtwPts on a prepared network whose edge weights are the lengths of straight geometries"""
+    from tracklib.core.network import Network, Node, Edge
+    from tracklib.core.track import Track
+    from tracklib.core.obs import Obs
+    from tracklib.core.obs_coords import ENUCoords
+    from tracklib.core.obs_time import ObsTime
+    n = rnd.randrange(2, 7)
+    pos = rnd.sample(range(0, 20), n)
+    m = rnd.randrange(1, 9)
+    g = []
+    for _ in range(m):
+        s, t = rnd.sample(range(n), 2)
+        g.append([s, t, abs(pos[s] - pos[t]), rnd.choice([-1, 0, 0, 1])])
+    ev = []
+    with core.quiet():
+        net = Network()
+        for k in range(n):
+            net.addNode(Node(k, ENUCoords(float(pos[k]), 0.0, 0.0)))
+        for j, (s, t, w, o) in enumerate(g, start=1):
+            geom = Track([Obs(ENUCoords(float(pos[s]), 0.0, 0.0), ObsTime()), Obs(ENUCoords(float(pos[t]), 0.0, 0.0), ObsTime())])
+            e = Edge(j, geom)
+            e.orientation = o
+            e.weight = float(w)
+            net.addEdge(e, Node(s, ENUCoords(float(pos[s]), 0.0, 0.0)), Node(t, ENUCoords(float(pos[t]), 0.0, 0.0)))
+        net.prepare(verbose=False)
+    for _ in range(6):
+        i, j = rnd.randrange(m), rnd.randrange(m)
+        a1, a2 = rnd.randrange(g[i][2] + 1), rnd.randrange(g[j][2] + 1)
+        e = {"id": id0 + len(ev), "ev": "btw", "n": n, "g": g, "e1": i + 1, "a1": a1, "e2": j + 1, "a2": a2, "d": None}
+        try:
+            with core.quiet():
+                e["d"] = wire(net.distanceBtwPts(i, float(a1), j, float(a2)))
+        except (Exception, SystemExit) as ex:
+            e["exc"] = repr(ex)[:200]
+        ev.append(e)
+    return ev
